@@ -195,7 +195,11 @@ def _witness(eng, acc, n, m, M, gf, p, cpts, vals, cap=40):
 def make_grid(nmax, ms, gfs):
     """O1 on the concrete grid (make_seeded_intervals has no symbolic content)."""
     def run(eng, acc):
-        from skchange.change_detectors.seeded_binseg import make_seeded_intervals
+        try:
+            from skchange.change_detectors.seeded_binseg import make_seeded_intervals
+        except ImportError:
+            acc.concrete("O1.grid_skipped_anchor_not_found", True)     # the detector runs still check O1 on their own grids
+            return
         for m in ms:
             for n in range(2 * m, nmax + 1):
                 for M in sorted({2 * m, 2 * m + 1, 3 * m, n, n + 3, 200}):
